@@ -313,6 +313,66 @@ def props_load_read(E, res):
     return P
 
 
+
+# ---- the externally observable face of a tombstone: GetBytecode / GetBytecodeHash / GetStorageAt ------------------------------
+
+def run_observe(which):
+    def run(E):
+        rt, rtref = setup(E)
+        rt.state = E.ctx.env['st0']
+        if which == 'storage_at':
+            k = mk_word(E, 'k')
+            E.ctx.env['k'] = k
+            GP = LazyV  # params: one-field struct { storage_key: U256 }
+            params = StructV('types::GetStorageAtParams', {0: k})
+            E.ctx.assume(z3.And(rt.caller.proto == 0, rt.caller.key == 0))
+            fn = find_fn(E, EVM, 'storage_at')
+            return E.run_function(fn, [rtref, params]), rt
+        fn = find_fn(E, EVM, which)
+        return E.run_function(fn, [rtref]), rt
+    return run
+
+
+def props_observe(which):
+    def props(E, res):
+        env = res.ctx.env
+        rt = env['rt']
+        if res.kind != 'return':
+            return [('no panic (%s)' % str(res.info)[:60], False)]
+        if not is_ok(res.value):
+            return [('observing a stored contract does not fail', False)]
+        SF = SFe()
+        st0 = env['st0']
+        tv = tomb_view(E, st0)
+        dead = z3.BoolVal(False) if tv is None else z3.Not(z3.And(tv[0] == rt.origin.key, tv[1] == rt.nonce))
+        got = E.deref(res.value.fields[('Ok', 0)])
+        if which == 'bytecode':
+            inner = E.deref(fget(E, got, 0, 'types::BytecodeReturn')) if got.ty and 'WithCodec' in got.ty else got
+            code = E.deref(fget(E, inner, 0, 'Option<Cid>'))
+            n, v = variant(E, code)
+            if n == 'Some':
+                c = E.deref(payload(E, v, 'Some'))
+                same = deep_eq(E, c, E.deref(fget(E, st0, SF['bytecode'], CID)))
+                return [('a contract that is alive - also one self-destructed in the current top-level message - still serves its code', z3.And(z3.Not(dead), same if is_sym(same) else z3.BoolVal(bool(same))))]
+            return [('only a contract self-destructed in an earlier top-level message has no code', dead)]
+        if which == 'bytecode_hash':
+            def rep(v):
+                inner = E.deref(fget(E, E.deref(v), 0, '[u8; 32]'))
+                if isinstance(inner, LazyV):
+                    return ('stored', inner.name)
+                return tuple(zv(x) for x in inner.items)
+            stored = rep(fget(E, st0, SF['bytecode_hash'], 'BytecodeHash'))
+            g = rep(got)
+            return [('an alive contract - also one self-destructed in the current top-level message - still reports its code hash', z3.Implies(z3.Not(dead), z3.BoolVal(g == stored))),
+                    ('a contract dead since an earlier message reports the hash of empty code', z3.Implies(dead, z3.BoolVal(g != stored and g[0] != 'stored')))]
+        from mirsym.models_fvm import key_term
+        val = E.deref(fget(E, got, 0, 'U256'))
+        stored = word_view(E, E.deref(fget(E, st0, SF['contract_state'], CID)), key_term(E, env['k']))
+        return [('GetStorageAt of a contract dead since an earlier message reads zero', z3.Implies(dead, is_zero_word(E, val))),
+                ('GetStorageAt of an alive contract - also one self-destructed in the current message - reads the stored slot', z3.Implies(z3.Not(dead), word_is(E, val, stored)))]
+    return props
+
+
 def run_selfdestruct(E):
     rt, rtref = setup(E, readonly=False)
     sysv = okv(E, call(E, 'load', [rtref]), 'load failed')
@@ -413,6 +473,11 @@ def build(tier):
     O.append(Obligation('evm.System::load + get_storage [tombstone]', run_load_read, props_load_read,
                         descr='a contract self-destructed in an earlier message reads as empty and is read-only; otherwise (no tombstone or tombstone of the current message) it keeps working',
                         bounds='one load + one read; arbitrary stored state and message (origin, nonce)', max_paths=20000))
+    for w, d in (('bytecode', 'GetBytecode'), ('bytecode_hash', 'GetBytecodeHash'), ('storage_at', 'GetStorageAt')):
+        O.append(Obligation('evm.%s [tombstone observed from outside]' % d, run_observe(w), props_observe(w),
+                            descr='%s over an arbitrary stored contract state: a tombstone of the current top-level message (origin, nonce) leaves the contract fully observable; an older one makes it empty' % d,
+                            bounds='one call; arbitrary stored State incl. arbitrary tombstone; arbitrary origin / nonce', max_paths=20000))
+    O += evm_guards.build_precompile(tier)
     O.append(Obligation('evm.selfdestruct + flush', run_selfdestruct, props_selfdestruct,
                         descr='SELFDESTRUCT moves the whole balance to the beneficiary and leaves a tombstone of the current message; a failed transfer leaves no tombstone',
                         bounds='one instruction + flush; arbitrary state; the transfer may succeed, fail or hit a syscall error; CUT: operand -> address conversion (beneficiary = arbitrary address)', max_paths=20000))
